@@ -442,6 +442,8 @@ class TailClient(Client):
 
     def event(self, n, s):
         kind, det = R.role(n)
+        if n.get('k') == 'call' and A.callee(n) == 'amc::vec::swap_deep':
+            return [('n', s | {'c', 'd'})]     # relocates the surplus elements of one operand into the other
         if kind in ('construct', 'hole_consume'):
             return [('n', s | {'c'})]
         if kind in ('destroy', 'erase'):
